@@ -289,7 +289,7 @@ theorem defineOwn_lift (o : MObj) (n : Name) (d : MProp) (pd : PD) (prop : MProp
           simp only [absObj, absProps_aupsert, hg]
 
 /-- [[DefineOwnProperty]] keeps every stored property well formed, outside `acc_to_data_keeps_accessor` -/
-theorem defineOwn_wf (o o' : MObj) (n : Name) (d : MProp) (ho : WFObj o) (hd : WFDesc d)
+theorem defineOwn_wf (o o' : MObj) (n : Name) (d : MProp) (ho : WFObj o) (hd : WFDescW d)
     (h2 : devAccToDataAt o n d = false) (h : defineOwn o n d = some o') : WFObj o' := by
   simp only [devAccToDataAt] at h2
   rw [defineOwn_eq] at h h2
@@ -815,7 +815,7 @@ theorem devAccToDataAt_val (o : MObj) (n : Name) (v : Val) (m : Mode) : devAccTo
 
 /-- a successful define on object `a` keeps the heap invariants -/
 theorem inv_define (h : MHeap) (a : Nat) (o o' : MObj) (n : Name) (d : MProp) (hi : Inv h) (ho : h[a]? = some o)
-    (hd : WFDesc d) (h2 : devAccToDataAt o n d = false) (hm : defineOwn o n d = some o') : Inv (h.set a o') :=
+    (hd : WFDescW d) (h2 : devAccToDataAt o n d = false) (hm : defineOwn o n d = some o') : Inv (h.set a o') :=
   inv_set h a o o' hi ho (defineOwn_wf o o' n d (hi.1 a o ho) hd h2 hm) (defineOwn_shape o o' n d hm).1
 
 theorem put_inv (h : MHeap) (strict : Bool) (a : Addr) (n : Name) (v : Val) (hi : Inv h) :
@@ -831,10 +831,369 @@ theorem put_inv (h : MHeap) (strict : Bool) (a : Addr) (n : Name) (v : Val) (hi 
     · rename_i prop _
       cases hm : defineOwn o n { prop with value := .val v } with
       | none => exact hi
-      | some o' => exact inv_define h a o o' n ⟨.val v, prop.mode⟩ hi ho (by simp [WFDesc]) (devAccToDataAt_val o n v _) hm
+      | some o' => exact inv_define h a o o' n ⟨.val v, prop.mode⟩ hi ho (by simp [WFDescW]) (devAccToDataAt_val o n v _) hm
     · cases hm : defineOwn o n ⟨.val v, ⟨.on, .on, .on⟩⟩ with
       | none => exact hi
-      | some o' => exact inv_define h a o o' n ⟨.val v, ⟨.on, .on, .on⟩⟩ hi ho (by simp [WFDesc]) (devAccToDataAt_val o n v _) hm
+      | some o' => exact inv_define h a o o' n ⟨.val v, ⟨.on, .on, .on⟩⟩ hi ho (by simp [WFDescW]) (devAccToDataAt_val o n v _) hm
+
+/-! ## Object.freeze / Object.seal (§15.2.3.8, §15.2.3.9) -/
+
+/-- generalised lifting: any one-property result `R` (reject / keep / write) against any spec descriptor -/
+theorem lift_result (o : MObj) (n : Name) (pd : PD) (prop : MProp) (R : Option (Option MProp))
+    (hl : alookup n o.props = some prop)
+    (hg : R.map (fun r => absProp (r.getD prop)) = (sDefineProp (absProp prop) pd).map (fun r => r.getD (absProp prop))) :
+    (R.map (fun r => match r with | none => o | some p => { o with props := aupsert n p o.props })).map absObj
+      = Spec.defineOwn (absObj o) n pd := by
+  obtain ⟨proto, ext, props⟩ := o
+  rw [sDefineOwn_eq]
+  simp only [absObj, alookup_absProps] at hl ⊢
+  rw [hl]
+  have hl' : alookup n (absProps props) = some (absProp prop) := by rw [alookup_absProps, hl]; rfl
+  simp only [Option.map_some]
+  cases R with
+  | none =>
+    cases hs : sDefineProp (absProp prop) pd with
+    | none => rfl
+    | some r' => rw [hs] at hg; simp at hg
+  | some r =>
+    cases hs : sDefineProp (absProp prop) pd with
+    | none => rw [hs] at hg; simp at hg
+    | some r' =>
+      rw [hs] at hg
+      simp only [Option.map_some, Option.some.injEq] at hg ⊢
+      cases r with
+      | none =>
+        cases r' with
+        | none => rfl
+        | some v =>
+          simp only [Option.getD] at hg
+          subst hg
+          simp only [absObj, aupsert_self _ _ _ hl']
+      | some p =>
+        cases r' with
+        | none =>
+          simp only [Option.getD] at hg
+          simp only [absObj, absProps_aupsert, hg, aupsert_self _ _ _ hl']
+        | some v =>
+          simp only [Option.getD] at hg
+          simp only [absObj, absProps_aupsert, hg]
+
+/-- the descriptor otto's freeze passes to defineOwnProperty, and whether it calls it at all -/
+def freezeDesc (prop : MProp) : MProp × Bool :=
+  let u1 := prop.isDataDescriptor && prop.writable
+  let p1 := if u1 then prop.writeOff else prop
+  let u2 := p1.configurable
+  let p2 := if u2 then p1.configureOff else p1
+  (p2, u1 || u2)
+
+/-- §15.2.3.9 step 2.a-2.c -/
+def sFreezeDesc (p : SProp) : PD :=
+  let d := ofProp p
+  let d := if Spec.isDataDescriptor d && d.writable == some true then { d with writable := some false } else d
+  if d.configurable == some true then { d with configurable := some false } else d
+
+def FreezeGoal (prop : MProp) : Prop :=
+  (if (freezeDesc prop).2 then defineProp prop (freezeDesc prop).1 else some none).map (fun r => absProp (r.getD prop))
+  = (sDefineProp (absProp prop) (sFreezeDesc (absProp prop))).map (fun r => r.getD (absProp prop))
+
+macro "unfold_freeze" : tactic => `(tactic|
+  (simp only [FreezeGoal, freezeDesc, sFreezeDesc, defineProp, defineSwitch, MProp.isEmpty, MProp.isGenericDescriptor, MProp.isDataDescriptor,
+    MProp.isAccessorDescriptor, writable_eq, writeSet_eq, enumerable_eq, enumerateSet_eq, configurable_eq, writeOff_eq, configureOff_eq,
+    mode222_eq, mergeMode_eq]))
+
+macro "freeze_simp" : tactic => `(tactic|
+  simp [FreezeGoal, freezeDesc, sFreezeDesc, defineProp, defineSwitch, MProp.isEmpty, MProp.isGenericDescriptor, MProp.isDataDescriptor,
+    MProp.isAccessorDescriptor, mergeMode_eq, tritMerge, sDefineProp, absProp, ofProp, allAbsent, subsumed, fieldSame, validate, applyFields,
+    Spec.isGenericDescriptor, Spec.isDataDescriptor, Spec.isAccessorDescriptor, SProp.configurable, SProp.enumerable, SProp.isData,
+    tb, tset, topt, onbit, slotFn, normSlot])
+
+theorem freezeV (pv : Val) (pw pe pc : Trit) : FreezeGoal ⟨.val pv, ⟨pw, pe, pc⟩⟩ := by
+  cases pw <;> cases pe <;> cases pc <;> freeze_simp
+
+theorem freezeG (pg ps : Slot) (hg : pg ≠ .nilObj) (hs : ps ≠ .nilObj) (pe pc : Trit) :
+    FreezeGoal ⟨.gs pg ps, ⟨.unset, pe, pc⟩⟩ := by
+  cases pg <;> cases ps <;> first | exact absurd rfl hg | exact absurd rfl hs |
+    (cases pe <;> cases pc <;> freeze_simp)
+
+theorem freeze_prop (prop : MProp) (hp : WFProp prop) : FreezeGoal prop := by
+  obtain ⟨v, ⟨w, e, c⟩⟩ := prop
+  cases v with
+  | nil => exact hp.elim
+  | val v => exact freezeV v w e c
+  | gs g s =>
+    obtain ⟨hg, hs, hw⟩ := hp
+    simp only at hw
+    subst hw
+    exact freezeG g s hg hs e c
+
+theorem freezeDesc_value (prop : MProp) : (freezeDesc prop).1.value = prop.value := by
+  obtain ⟨v, ⟨w, e, c⟩⟩ := prop
+  simp only [freezeDesc, writeOff_eq, configureOff_eq]
+  split <;> split <;> simp_all [writeOff_eq, configureOff_eq]
+
+theorem freezeDesc_wfw (prop : MProp) (hp : WFProp prop) : WFDescW (freezeDesc prop).1 := by
+  obtain ⟨v, ⟨w, e, c⟩⟩ := prop
+  cases v with
+  | nil => exact hp.elim
+  | val v => simp only [WFDescW, freezeDesc_value]
+  | gs g s =>
+    obtain ⟨_, _, hw⟩ := hp
+    simp only at hw
+    subst hw
+    cases e <;> cases c <;> simp [WFDescW, freezeDesc, MProp.isDataDescriptor, tb, tset]
+
+theorem devAccToDataAt_sameValue (o : MObj) (n : Name) (prop d : MProp) (hl : alookup n o.props = some prop)
+    (hv : d.value = prop.value) : devAccToDataAt o n d = false := by
+  simp only [devAccToDataAt, hl, hv]
+  cases prop.value <;> simp
+
+/-- one iteration of otto's freeze loop on a present property -/
+def freezeStep (o : MObj) (n : Name) (prop : MProp) : Option MObj :=
+  if (freezeDesc prop).2 then defineOwn o n (freezeDesc prop).1 else some o
+
+theorem freezeLoop_cons (o : MObj) (n : Name) (ns : List Name) :
+    freezeLoop o (n :: ns) =
+      match alookup n o.props with
+      | none => freezeLoop o ns
+      | some prop =>
+        match freezeStep o n prop with
+        | none => (o, true)
+        | some o' => freezeLoop o' ns := by
+  simp only [freezeLoop, freezeStep, freezeDesc]
+  cases alookup n o.props with
+  | none => rfl
+  | some prop =>
+    simp only []
+    split <;> split <;> (try simp_all) <;> (first | rfl | (split <;> rfl))
+
+theorem sFreezeLoop_cons (o : SObj) (n : Name) (ns : List Name) :
+    Spec.freezeLoop o (n :: ns) =
+      match alookup n o.props with
+      | none => Spec.freezeLoop o ns
+      | some p =>
+        match Spec.defineOwn o n (sFreezeDesc p) with
+        | none => (o, true)
+        | some o' => Spec.freezeLoop o' ns := by
+  simp only [Spec.freezeLoop, sFreezeDesc]
+  cases alookup n o.props <;> rfl
+
+theorem freezeStep_refines (o : MObj) (n : Name) (prop : MProp) (ho : WFObj o) (hl : alookup n o.props = some prop) :
+    (freezeStep o n prop).map absObj = Spec.defineOwn (absObj o) n (sFreezeDesc (absProp prop)) := by
+  have hR := lift_result o n (sFreezeDesc (absProp prop)) prop _ hl (freeze_prop prop (ho _ (alookup_mem hl)))
+  simp only [freezeStep]
+  by_cases hf : (freezeDesc prop).2 = true
+  · simp only [hf, if_true] at hR ⊢
+    rw [defineOwn_eq, hl]
+    exact hR
+  · simp only [hf] at hR ⊢
+    exact hR
+
+theorem freezeStep_wf (o o' : MObj) (n : Name) (prop : MProp) (ho : WFObj o) (hl : alookup n o.props = some prop)
+    (h : freezeStep o n prop = some o') : WFObj o' ∧ o'.proto = o.proto ∧ o'.ext = o.ext ∧ akeys o'.props = akeys o.props := by
+  simp only [freezeStep] at h
+  split at h
+  · have hs := defineOwn_shape o o' n _ h
+    refine ⟨defineOwn_wf o o' n _ ho (freezeDesc_wfw prop (ho _ (alookup_mem hl)))
+      (devAccToDataAt_sameValue o n prop _ hl (freezeDesc_value prop)) h, hs.1, hs.2.1, ?_⟩
+    rcases hs.2.2 with hk | ⟨_, hn, _⟩
+    · exact hk
+    · rw [hl] at hn; cases hn
+  · cases h; exact ⟨ho, rfl, rfl, rfl⟩
+
+/-- **the freeze loop refines §15.2.3.9 step 2** and keeps the object well formed -/
+theorem freezeLoop_refines : ∀ (ns : List Name) (o : MObj), WFObj o →
+    (absObj (freezeLoop o ns).1, (freezeLoop o ns).2) = Spec.freezeLoop (absObj o) ns ∧
+    WFObj (freezeLoop o ns).1 ∧ (freezeLoop o ns).1.proto = o.proto ∧
+    (freezeLoop o ns).1.ext = o.ext ∧ akeys (freezeLoop o ns).1.props = akeys o.props := by
+  intro ns
+  induction ns with
+  | nil => intro o ho; exact ⟨rfl, ho, rfl, rfl, rfl⟩
+  | cons n ns ih =>
+    intro o ho
+    have hlk : alookup n (absObj o).props = (alookup n o.props).map absProp := by simp [absObj, alookup_absProps]
+    rw [freezeLoop_cons, sFreezeLoop_cons, hlk]
+    cases hl : alookup n o.props with
+    | none => exact ih o ho
+    | some prop =>
+      simp only [Option.map_some]
+      rw [← freezeStep_refines o n prop ho hl]
+      cases hs : freezeStep o n prop with
+      | none => exact ⟨rfl, ho, rfl, rfl, rfl⟩
+      | some o' =>
+        obtain ⟨hw', hp', he', hk'⟩ := freezeStep_wf o o' n prop ho hl hs
+        obtain ⟨h1, h2, h3, h4, h5⟩ := ih o' hw'
+        exact ⟨h1, h2, h3.trans hp', h4.trans he', h5.trans hk'⟩
+
+theorem akeys_absProps (l : List (Name × MProp)) : akeys (absProps l) = akeys l := by
+  simp [akeys, absProps, List.map_map, Function.comp_def]
+
+/-- **Object.freeze refines §15.2.3.9** as a whole step, and keeps the invariants -/
+theorem freeze_refines (h : MHeap) (a : Addr) (hi : Inv h) :
+    StepRefines h (.freeze a) ∧ Inv (step h (.freeze a)).1 := by
+  simp only [StepRefines, step, Spec.step, absHeap_get]
+  cases ho : h[a]? with
+  | none => exact ⟨⟨rfl, rfl⟩, hi⟩
+  | some o =>
+    obtain ⟨h1, h2, h3, _, _⟩ := freezeLoop_refines (akeys o.props) o (hi.1 a o ho)
+    have hk : akeys (absObj o).props = akeys o.props := by simp [absObj, akeys_absProps]
+    simp only [Option.map_some, hk, ← h1]
+    cases hr : freezeLoop o (akeys o.props) with
+    | mk o' b =>
+      rw [hr] at h2 h3
+      cases b with
+      | true => exact ⟨by simp [absHeap_set], inv_set h a o o' hi ho h2 h3⟩
+      | false => exact ⟨by simp [absHeap_set, absObj], inv_set h a o _ hi ho h2 h3⟩
+
+/-! ### seal -/
+
+/-- the descriptor otto's seal passes to defineOwnProperty, and whether it calls it at all -/
+def sealDesc (prop : MProp) : MProp × Bool := (prop.configureOff, prop.configurable)
+
+/-- §15.2.3.8 step 2.a-2.c -/
+def sSealDesc (p : SProp) : PD :=
+  let d := ofProp p
+  if p.configurable then { d with configurable := some false } else d
+
+def SealGoal (prop : MProp) : Prop :=
+  (if (sealDesc prop).2 then defineProp prop (sealDesc prop).1 else some none).map (fun r => absProp (r.getD prop))
+  = (sDefineProp (absProp prop) (sSealDesc (absProp prop))).map (fun r => r.getD (absProp prop))
+
+macro "seal_simp" : tactic => `(tactic|
+  simp [SealGoal, sealDesc, sSealDesc, defineProp, defineSwitch, MProp.isEmpty, MProp.isGenericDescriptor, MProp.isDataDescriptor,
+    MProp.isAccessorDescriptor, mergeMode_eq, tritMerge, sDefineProp, absProp, ofProp, allAbsent, subsumed, fieldSame, validate, applyFields,
+    Spec.isGenericDescriptor, Spec.isDataDescriptor, Spec.isAccessorDescriptor, SProp.configurable, SProp.enumerable, SProp.isData,
+    tb, tset, topt, onbit, slotFn, normSlot])
+
+theorem sealV (pv : Val) (pw pe pc : Trit) : SealGoal ⟨.val pv, ⟨pw, pe, pc⟩⟩ := by
+  cases pw <;> cases pe <;> cases pc <;> seal_simp
+
+theorem sealG (pg ps : Slot) (hg : pg ≠ .nilObj) (hs : ps ≠ .nilObj) (pe pc : Trit) :
+    SealGoal ⟨.gs pg ps, ⟨.unset, pe, pc⟩⟩ := by
+  cases pg <;> cases ps <;> first | exact absurd rfl hg | exact absurd rfl hs |
+    (cases pe <;> cases pc <;> seal_simp)
+
+theorem seal_prop (prop : MProp) (hp : WFProp prop) : SealGoal prop := by
+  obtain ⟨v, ⟨w, e, c⟩⟩ := prop
+  cases v with
+  | nil => exact hp.elim
+  | val v => exact sealV v w e c
+  | gs g s =>
+    obtain ⟨hg, hs, hw⟩ := hp
+    simp only at hw
+    subst hw
+    exact sealG g s hg hs e c
+
+theorem sealDesc_value (prop : MProp) : (sealDesc prop).1.value = prop.value := by
+  obtain ⟨v, ⟨w, e, c⟩⟩ := prop
+  simp [sealDesc]
+
+theorem sealDesc_wfw (prop : MProp) (hp : WFProp prop) : WFDescW (sealDesc prop).1 := by
+  obtain ⟨v, ⟨w, e, c⟩⟩ := prop
+  cases v with
+  | nil => exact hp.elim
+  | val v => simp [WFDescW, sealDesc]
+  | gs g s =>
+    obtain ⟨_, _, hw⟩ := hp
+    simp only at hw
+    subst hw
+    simp [WFDescW, sealDesc]
+
+def sealStep (o : MObj) (n : Name) (prop : MProp) : Option MObj :=
+  if (sealDesc prop).2 then defineOwn o n (sealDesc prop).1 else some o
+
+theorem sealLoop_cons (o : MObj) (n : Name) (ns : List Name) :
+    sealLoop o (n :: ns) =
+      match alookup n o.props with
+      | none => sealLoop o ns
+      | some prop =>
+        match sealStep o n prop with
+        | none => (o, true)
+        | some o' => sealLoop o' ns := by
+  simp only [sealLoop, sealStep, sealDesc]
+  cases alookup n o.props with
+  | none => rfl
+  | some prop =>
+    simp only []
+    by_cases hc : prop.configurable = true
+    · simp only [hc, if_true]
+      cases defineOwn o n prop.configureOff <;> rfl
+    · simp only [hc]
+      rfl
+
+theorem sSealLoop_cons (o : SObj) (n : Name) (ns : List Name) :
+    Spec.sealLoop o (n :: ns) =
+      match alookup n o.props with
+      | none => Spec.sealLoop o ns
+      | some p =>
+        match Spec.defineOwn o n (sSealDesc p) with
+        | none => (o, true)
+        | some o' => Spec.sealLoop o' ns := by
+  simp only [Spec.sealLoop, sSealDesc]
+  cases alookup n o.props <;> rfl
+
+theorem sealStep_refines (o : MObj) (n : Name) (prop : MProp) (ho : WFObj o) (hl : alookup n o.props = some prop) :
+    (sealStep o n prop).map absObj = Spec.defineOwn (absObj o) n (sSealDesc (absProp prop)) := by
+  have hR := lift_result o n (sSealDesc (absProp prop)) prop _ hl (seal_prop prop (ho _ (alookup_mem hl)))
+  simp only [sealStep]
+  by_cases hf : (sealDesc prop).2 = true
+  · simp only [hf, if_true] at hR ⊢
+    rw [defineOwn_eq, hl]
+    exact hR
+  · simp only [hf] at hR ⊢
+    exact hR
+
+theorem sealStep_wf (o o' : MObj) (n : Name) (prop : MProp) (ho : WFObj o) (hl : alookup n o.props = some prop)
+    (h : sealStep o n prop = some o') : WFObj o' ∧ o'.proto = o.proto ∧ o'.ext = o.ext ∧ akeys o'.props = akeys o.props := by
+  simp only [sealStep] at h
+  split at h
+  · have hs := defineOwn_shape o o' n _ h
+    refine ⟨defineOwn_wf o o' n _ ho (sealDesc_wfw prop (ho _ (alookup_mem hl)))
+      (devAccToDataAt_sameValue o n prop _ hl (sealDesc_value prop)) h, hs.1, hs.2.1, ?_⟩
+    rcases hs.2.2 with hk | ⟨_, hn, _⟩
+    · exact hk
+    · rw [hl] at hn; cases hn
+  · cases h; exact ⟨ho, rfl, rfl, rfl⟩
+
+/-- **the seal loop refines §15.2.3.8 step 2** and keeps the object well formed -/
+theorem sealLoop_refines : ∀ (ns : List Name) (o : MObj), WFObj o →
+    (absObj (sealLoop o ns).1, (sealLoop o ns).2) = Spec.sealLoop (absObj o) ns ∧
+    WFObj (sealLoop o ns).1 ∧ (sealLoop o ns).1.proto = o.proto ∧
+    (sealLoop o ns).1.ext = o.ext ∧ akeys (sealLoop o ns).1.props = akeys o.props := by
+  intro ns
+  induction ns with
+  | nil => intro o ho; exact ⟨rfl, ho, rfl, rfl, rfl⟩
+  | cons n ns ih =>
+    intro o ho
+    have hlk : alookup n (absObj o).props = (alookup n o.props).map absProp := by simp [absObj, alookup_absProps]
+    rw [sealLoop_cons, sSealLoop_cons, hlk]
+    cases hl : alookup n o.props with
+    | none => exact ih o ho
+    | some prop =>
+      simp only [Option.map_some]
+      rw [← sealStep_refines o n prop ho hl]
+      cases hs : sealStep o n prop with
+      | none => exact ⟨rfl, ho, rfl, rfl, rfl⟩
+      | some o' =>
+        obtain ⟨hw', hp', he', hk'⟩ := sealStep_wf o o' n prop ho hl hs
+        obtain ⟨h1, h2, h3, h4, h5⟩ := ih o' hw'
+        exact ⟨h1, h2, h3.trans hp', h4.trans he', h5.trans hk'⟩
+
+/-- **Object.seal refines §15.2.3.8** as a whole step, and keeps the invariants -/
+theorem seal_refines (h : MHeap) (a : Addr) (hi : Inv h) :
+    StepRefines h (.seal a) ∧ Inv (step h (.seal a)).1 := by
+  simp only [StepRefines, step, Spec.step, absHeap_get]
+  cases ho : h[a]? with
+  | none => exact ⟨⟨rfl, rfl⟩, hi⟩
+  | some o =>
+    obtain ⟨h1, h2, h3, _, _⟩ := sealLoop_refines (akeys o.props) o (hi.1 a o ho)
+    have hk : akeys (absObj o).props = akeys o.props := by simp [absObj, akeys_absProps]
+    simp only [Option.map_some, hk, ← h1]
+    cases hr : sealLoop o (akeys o.props) with
+    | mk o' b =>
+      rw [hr] at h2 h3
+      cases b with
+      | true => exact ⟨by simp [absHeap_set], inv_set h a o o' hi ho h2 h3⟩
+      | false => exact ⟨by simp [absHeap_set, absObj], inv_set h a o _ hi ho h2 h3⟩
 
 /-! ## Non-vacuity of the hypotheses -/
 
